@@ -234,6 +234,12 @@ def eval_case(case, want, dtypes=("float64", "float32"), variant=0):
                         if float(d2.max()) > tolx * 10:
                             i = int(d2.argmax())
                             add("roundtrip", "inverse(forward(%s)) = %.12g" % (ins[i][0], float(x2[i])), **tag)
+            if "C19" in want and oc == "Value":
+                # the transform's own output fed back, as returned (no clamp): whatever forward returns must be
+                # in the inverse's domain in this precision too
+                oc7, _, _ = rs.call(y, inverse=True)
+                if oc7 != "Value":
+                    add("f32_raises" if dtn == "float32" else "inverse_nonfinite", "inverse(forward(x)) on the lattice inputs raises in %s: %s" % (dtn, oc7), **tag)
             if not par["tails"] and "C17" in want and dtn == "float64":
                 for v in (bottom - 1.0, top + 1.0, float(torch.nextafter(torch.tensor(top, dtype=dt), torch.tensor(float("inf"), dtype=dt)))):
                     batch = torch.tensor([float(ey[len(ins) // 2]), v], dtype=torch.float64).to(dt)
